@@ -14,7 +14,7 @@ B=$(dirname "$(rustup +nightly which rustc)")/../lib/rustlib/x86_64-unknown-linu
 mkdir -p $W/prof $W/out "$V/coverage"
 rm -f $W/prof/*.profraw
 ( cd "$V" && ./check build >/dev/null ) || exit 2      # renders sim/Cargo.toml
-( cd "$V/sim" && CARGO_NET_OFFLINE=true CARGO_TARGET_DIR=$W/target RUSTFLAGS="-C instrument-coverage" cargo +nightly build --release --offline --quiet ) || exit 2
+( cd "$V/sim" && LLVM_PROFILE_FILE=$W/prof/build-%p.profraw CARGO_NET_OFFLINE=true CARGO_TARGET_DIR=$W/target RUSTFLAGS="-C instrument-coverage" cargo +nightly build --release --offline --quiet ) || exit 2
 for p in $(python3 -c "import json;print(' '.join(c['property_id'] for c in json.load(open('$V/MANIFEST.json'))['checks']))"); do
   known=$(python3 -c "import json;print(json.dumps([k for k in json.load(open('$V/known_findings.json'))['findings'] if k['property']=='$p']))")
   LLVM_PROFILE_FILE=$W/prof/$p-%p.profraw VERIF_RUNS_SCALE=$SCALE VERIF_REPLAY_DIR=$W/replays VERIF_KNOWN="$known" \
